@@ -27,20 +27,27 @@ fn strip(d: &str) -> String {
 }
 
 /// CalVer presets: the SemVer core must be year.month.day (UTC) of the bumped timestamp.
-fn judge_calver(ctx: &Ctx, preset: &str, t: u64, fmt: &str, st: &mut Stats) {
+fn judge_calver(ctx: &Ctx, preset: &str, t: u64, fmt: &str, st: &mut Stats) { judge_calver_state(ctx, preset, t, fmt, "0.0.7", &[], st) }
+
+/// ... in every version state: `tag` (its patch number is the fourth release number) and state flags (dirty, distance)
+fn judge_calver_state(ctx: &Ctx, preset: &str, t: u64, fmt: &str, tag: &str, flags: &[&str], st: &mut Stats) {
     st.inc("calver_evaluations");
     let ts = t.to_string();
-    let args = ["version", "--source", "none", "--schema", preset, "--bumped-timestamp", &ts, "--tag-version", "0.0.7", "--output-format", fmt];
-    let case = || json!({"kind":"calver","preset":preset,"t":t,"format":fmt});
-    let key = || format!("{preset} @ {t} [{fmt}]");
+    let mut args = vec!["version", "--source", "none", "--schema", preset, "--bumped-timestamp", &ts, "--tag-version", tag, "--output-format", fmt];
+    args.extend(flags);
+    let patch = rsv::parse(tag).map(|p| p.core[2].clone()).unwrap_or_default();
+    let case = || json!({"kind":"calver","preset":preset,"t":t,"format":fmt,"tag":tag,"flags":flags});
+    let key = || if tag == "0.0.7" && flags.is_empty() { format!("{preset} @ {t} [{fmt}]") } else { format!("{preset} @ {t} [{fmt}] tag {tag} {}", flags.join(" ")) };
     let c = cal::civil(t);
+    // a dirty state replaces the timestamp by the (pinned) wall clock by design
+    let c = if flags.contains(&"--dirty") { cal::civil(ctx.pinned_now()) } else { c };
     match zv::run_cli(&args, None) {
         Ok(Res::Ok(out)) => {
             st.observe(&(preset, t, &out));
             let ok = if fmt == "semver" {
                 rsv::parse(&out).map(|p| p.core == [c.year.to_string(), c.month.to_string(), c.day.to_string()]).unwrap_or(false)
             } else {
-                out.starts_with(&format!("{}.{}.{}.7", c.year, c.month, c.day))
+                out.split_once('!').map(|x| x.1).unwrap_or(&out).starts_with(&format!("{}.{}.{}.{patch}", c.year, c.month, c.day))
             };
             if !ok {
                 ctx.violation("calver_date_mismatch", key(), case(), format!("printed {out:?}, UTC date is {}-{}-{}", c.year, c.month, c.day));
@@ -106,7 +113,11 @@ fn main() {
         let t = case["t"].as_u64().unwrap_or(0);
         match case["kind"].as_str() {
             Some("pattern") => judge_pattern(&ctx, case["pattern"].as_str().unwrap(), t, &mut st),
-            Some("calver") => judge_calver(&ctx, case["preset"].as_str().unwrap(), t, case["format"].as_str().unwrap_or("semver"), &mut st),
+            Some("calver") => {
+                let flags: Vec<String> = case["flags"].as_array().map(|v| v.iter().filter_map(|x| x.as_str().map(String::from)).collect()).unwrap_or_default();
+                let flags: Vec<&str> = flags.iter().map(|x| x.as_str()).collect();
+                judge_calver_state(&ctx, case["preset"].as_str().unwrap(), t, case["format"].as_str().unwrap_or("semver"), case["tag"].as_str().unwrap_or("0.0.7"), &flags, &mut st)
+            }
             Some("schema") => judge_schema_pattern(&ctx, case["pattern"].as_str().unwrap(), t, case["section"].as_str().unwrap(), &mut st),
             Some("precedence") => judge_precedence(&ctx, case["bumped"].as_u64(), case["last"].as_u64(), &mut st),
             _ => machinery_error("bad replay kind"),
@@ -180,6 +191,19 @@ fn main() {
         }
         st
     }).reduce(Stats::default, Stats::merge);
+
+    // ... and in every version state (final / pre-release / post / pre+post / pre+post+dev / epoch tag x clean, ahead, dirty):
+    // the smart presets pick their tier from that state, the date must be there in each
+    let s3 = {
+        let mut st = s3;
+        let tags = ["1.2.3", "1.2.3-rc.1", "1.2.3-post.4", "1.2.3-rc.1.post.4", "1.2.3-alpha.0.post.0", "1.2.3-rc.1.post.4.dev.5", "1.2.3-dev.5", "1.2.3-epoch.2.beta.1.post.3"];
+        let states: [&[&str]; 6] = [&[], &["--distance", "3"], &["--dirty"], &["--distance", "3", "--dirty"], &["--clean"], &["--distance", "0", "--no-dirty"]];
+        for preset in zv::CALVER_PRESETS.iter() { for tag in tags { for flags in states { for t in [1709251199u64, 1735689600, 951782400] { for fmt in ["semver", "pep440"] {
+            st.inc("calver_state_evaluations");
+            judge_calver_state(&ctx, preset, t, fmt, tag, flags, &mut st);
+        }}}}}
+        st
+    };
 
     // each documented name in a schema, in each section, at representative instants
     let mut s4 = Stats::default();
@@ -291,7 +315,7 @@ fn main() {
     cov.evaluations = all.get("pattern_evaluations") + all.get("calver_evaluations") + all.get("schema_pattern_evaluations") + all.get("precedence_evaluations") + all.get("git_calver_evaluations") + all.get("git_pattern_evaluations");
     cov.traces_validated = cov.evaluations;
     cov.distinct_nontrivial = s1.get("days") * secs.len() as u64 * 16;
-    cov.rule = format!("resolve_timestamp on every day 1970-01-01..2199-12-31 ({} days) at seconds-of-day {secs:?} x 16 patterns, every 97th (thorough 7th) day 2200-01-01..9999-12-31 and 13 instants around 2^31 / 2^32 / 2^33 / i64::MAX ns / year 9999, plus every {} second of 12 boundary days (leap days 2000/2100, year ends, week-53 years); the 11 calver presets through the in-process `zerv version --source none --bumped-timestamp` pipeline on {} days x first/last second; each pattern by name in a --schema-ron in each section; bumped/last timestamp precedence table via stdin RON; real git repositories at 12 boundary instants (commit time = committer date, author date 500 days off with a +0900 zone; HEAD on the branch and detached at the tag) x 11 calver presets x 16 patterns. The harness runs with TZ=JST-9 so that any local-time dependence is visible. non-trivial = (day, second, pattern) triples of the daily sweep", last_day + 1, if quick { "7th" } else { "single" }, cal_days.len());
+    cov.rule = format!("resolve_timestamp on every day 1970-01-01..2199-12-31 ({} days) at seconds-of-day {secs:?} x 16 patterns, every 97th (thorough 7th) day 2200-01-01..9999-12-31 and 13 instants around 2^31 / 2^32 / 2^33 / i64::MAX ns / year 9999, plus every {} second of 12 boundary days (leap days 2000/2100, year ends, week-53 years); the 11 calver presets through the in-process `zerv version --source none --bumped-timestamp` pipeline on {} days x first/last second, and in 8 version states of the tag (final, pre-release, post, pre+post, pre+post+dev, dev, epoch) x 6 state flag sets (clean, ahead, dirty, both, --clean, --distance 0 --no-dirty) x 3 instants x both formats; each pattern by name in a --schema-ron in each section; bumped/last timestamp precedence table via stdin RON; real git repositories at 12 boundary instants (commit time = committer date, author date 500 days off with a +0900 zone; HEAD on the branch and detached at the tag) x 11 calver presets x 16 patterns. The harness runs with TZ=JST-9 so that any local-time dependence is visible. non-trivial = (day, second, pattern) triples of the daily sweep", last_day + 1, if quick { "7th" } else { "single" }, cal_days.len());
     cov.exhaustive = true;
     cov.samples = vec![json!({"pattern":"0W","t":951782400u64,"expected":cal::field("0W", 951782400)}), json!({"preset":"calver-base","t":4107542399u64}), json!({"schema":"ts(\"compact_datetime\") in build","t":1709247600u64})];
     cov.set("clause_counts", all.to_json());
